@@ -11,6 +11,8 @@ MEM_LOOKUP_* are provided here: memory is a total function of the 64-bit address
 little-endian, so that the translator and the arithmetic runtime are exercised, not the VM.
 """
 import ctypes
+import mmap
+import struct
 import os
 import re
 import signal
@@ -51,6 +53,7 @@ PRELUDE = r'''
 #include <setjmp.h>
 #include <signal.h>
 #include <sys/time.h>
+#include <unistd.h>
 #include "op_semantics.h"
 #include "bn.h"
 
@@ -197,6 +200,7 @@ def wrapper_lines(idx, item):
 
 
 def norm_msg(msg):
+    msg = msg.split(";")[0].split(" [-W")[0]
     msg = re.sub(r"\d+", "N", msg)
     return msg.strip()
 
@@ -260,17 +264,26 @@ class Session(object):
             src_lines.append("const int verif_table_len = %d;" % len(items))
             with open(base + ".c", "w") as f:
                 f.write("\n".join(src_lines) + "\n")
-            rc, out = self._cc([self.opt, "-fPIC", "-w", "-Werror=implicit-function-declaration",
+            rc, out = self._cc([self.opt, "-fPIC", "-Werror=implicit-function-declaration",
                                 "-Werror=int-conversion", "-fno-strict-aliasing", "-fmax-errors=0",
                                 "-fno-diagnostics-show-caret", "-fdiagnostics-color=never",
                                 "-I" + self.jit, "-c", base + ".c", "-o", base + ".o"], "batch")
             if rc == 0:
                 break
             bad = {}
-            for m in re.finditer(r"^[^:\n]+\.c:(\d+):\d+: (?:fatal )?error: (.*)$", out, re.M):
-                i = owner.get(int(m.group(1)))
-                if i is not None and i not in bad:
-                    bad[i] = m.group(2)
+            cur = None
+            for ln in out.split("\n"):
+                m = re.search(r": In function 'f_(\d+)':", ln)
+                if m:
+                    cur = int(m.group(1))
+                    continue
+                m = re.match(r"^([^:\n]+):(\d+):\d+: (?:fatal )?error: (.*)$", ln)
+                if m:
+                    i = owner.get(int(m.group(2))) if m.group(1).endswith(os.path.basename(base) + ".c") else None
+                    if i is None:
+                        i = cur
+                    if i is not None and i not in bad:
+                        bad[i] = m.group(3)
             if not bad:
                 raise RuntimeError("batch does not compile and no function is to blame:\n%s" % out[-3000:])
             for i, msg in bad.items():
@@ -279,13 +292,21 @@ class Session(object):
         else:
             raise RuntimeError("batch still does not compile after 4 rounds")
         so = base + ".so"
-        rc, out = self._cc(["-shared", "-o", so, base + ".o"] + self.build_runtime() + ["-lm"], "link")
+        rc, out = self._cc(["-shared", "-Wl,-z,defs", "-o", so, base + ".o"] + self.build_runtime() + ["-lm", "-lc"], "link")
         if rc != 0:
             raise RuntimeError("link failed:\n%s" % out[-3000:])
         return so
 
     # -- running ----------------------------------------------------------
     def _plan(self, items):
+        cached = getattr(self, "_plan_cache", None)
+        if cached is not None and cached[0] is items:
+            return cached[1]
+        plan = self._make_plan(items)
+        self._plan_cache = (items, plan)
+        return plan
+
+    def _make_plan(self, items):
         plan = []
         for i, it in enumerate(items):
             if it.ctext is None or it.compile_error is not None:
@@ -301,7 +322,7 @@ class Session(object):
                 plan.append((i, t, words))
         return plan
 
-    def _child(self, so, plan, start, resfd, outpath, only_one):
+    def _child(self, so, plan, start, mm, outpath, only_one):
         # child process: never returns
         try:
             fd = os.open(outpath, os.O_WRONLY | os.O_CREAT | os.O_APPEND, 0o600)
@@ -315,41 +336,55 @@ class Session(object):
             call.restype = ctypes.c_int
             out = (ctypes.c_uint64 * 4)()
             size0 = os.fstat(1).st_size
+            pos = [8]
+
+            def emit(data):
+                mm[pos[0]:pos[0] + len(data)] = data
+                pos[0] += len(data)
+                mm[0:8] = struct.pack("<Q", pos[0])
             k = start
             n = len(plan)
             while k < n:
                 i, t, words = plan[k]
                 arr = (ctypes.c_uint64 * len(words))(*words)
-                os.write(resfd, b"B %d\n" % k)
+                emit(b"B %d\n" % k)
                 for j in range(4):
                     out[j] = 0
                 rc = call(i, arr, out, CPU_LIMIT_S)
-                os.write(resfd, b"R %d %d %x %x %x %x\n" % (k, rc, out[0], out[1], out[2], out[3]))
+                emit(b"R %d %d %x %x %x %x\n" % (k, rc, out[0], out[1], out[2], out[3]))
                 libc.fflush(None)
                 size1 = os.fstat(1).st_size
                 if size1 != size0:
-                    os.write(resfd, b"S %d %d %d\n" % (k, size0, size1))
+                    emit(b"S %d %d %d\n" % (k, size0, size1))
                     size0 = size1
                 k += 1
                 if only_one:
                     break
             os._exit(0)
         except BaseException:
-            os._exit(98)
+            try:
+                import traceback
+                msg = ("X " + traceback.format_exc().replace("\n", " | "))[:1500].encode("ascii", "replace") + b"\n"
+                end = struct.unpack("<Q", mm[0:8])[0]
+                mm[end:end + len(msg)] = msg
+                mm[0:8] = struct.pack("<Q", end + len(msg))
+            finally:
+                os._exit(98)
 
     def _run_child(self, so, plan, start, only_one=False):
         """-> (records, died) ; records: list of parsed result lines"""
-        respath = os.path.join(self.scratch, "res.txt")
         outpath = os.path.join(self.scratch, "stdout.bin")
-        resfd = os.open(respath, os.O_WRONLY | os.O_CREAT | os.O_TRUNC, 0o600)
+        ncalls = 1 if only_one else len(plan) - start
+        mm = mmap.mmap(-1, 8192 + 160 * ncalls)     # anonymous shared memory: survives the death of the child
+        mm[0:8] = struct.pack("<Q", 8)
         self.stats["children"] += 1
         pid = os.fork()
         if pid == 0:
-            self._child(so, plan, start, resfd, outpath, only_one)
-        os.close(resfd)
+            self._child(so, plan, start, mm, outpath, only_one)
         _, st = os.waitpid(pid, 0)
-        with open(respath) as f:
-            lines = f.read().split("\n")
+        end = struct.unpack("<Q", mm[0:8])[0]
+        lines = mm[8:end].decode("ascii").split("\n")
+        mm.close()
         died = None
         if os.WIFSIGNALED(st):
             sig = os.WTERMSIG(st)
@@ -360,7 +395,8 @@ class Session(object):
         elif os.WEXITSTATUS(st) == 97:
             died = "exit-unarmed"
         elif os.WEXITSTATUS(st) != 0:
-            raise RuntimeError("harness child failed (status %d)" % os.WEXITSTATUS(st))
+            raise RuntimeError("harness child failed (status %d): %s" % (os.WEXITSTATUS(st),
+                                                                        [ln for ln in lines if ln.startswith("X ")]))
         return lines, died
 
     def run(self, items, so):
